@@ -255,17 +255,6 @@ Proof. apply run_lines_g_total. apply process_line_g2_total. Qed.
 Theorem read_raw_string_g_total hs allow doc ys e : read_raw_string_g hs true allow doc <> DocHang ys e.
 Proof. apply run_lines_g_total. apply process_line_g_total. Qed.
 
-(** ** the reader /repo has now *)
-Theorem terminates_all_cur :
-  nt_fixed_tok = true -> nt_fixed_dlt = true -> nt_uri_unclosed_to_eol = true ->
-  forall allow doc ys e,
-    read_raw_string_cur allow doc <> DocHang ys e /\ read_file_cur allow doc <> DocHang ys e /\
-    process_line_cur allow doc <> LHang.
-Proof.
-  intros E1 E2 E3 allow doc ys e. unfold read_raw_string_cur, read_file_cur, process_line_cur.
-  rewrite E1, E2, E3. split; [apply read_raw_string_g2_total | split; [apply read_file_g2_total | apply process_line_g2_total]].
-Qed.
-
 (** ** without [el] the loop does not advance on a '<' that is never closed *)
 Lemma hang_without_el hs allow : process_line_g2 hs false allow (Str "<x") = LHang.
 Proof. destruct hs; vm_compute; reflexivity. Qed.
